@@ -620,7 +620,7 @@ def run(ck, tier, rng):
                               "input": c, "model_outcome": mo, "impl_outcome": io_}, concrete=False)
     else:
         ck.notes.append("extracted runner not available; correspondence not run")
-    any_concrete = any(v["concrete"] for v in ck.violations) or bool(ck.known_hits)
+    any_concrete = any(v["concrete"] for v in ck.violations)
     ck.broken_build(oracle_found_concrete=any_concrete)
     converse = {}
     for u in meta["uses"]:
